@@ -1,5 +1,7 @@
 
 import numpy as np
+
+from ...util import hashobj
 from .ancillary_feature import AncillaryFeature
 
 
@@ -91,7 +93,11 @@ def has_ml_scores(mm):
         # this ML score. But this use case is basically non-existent and
         # the performance impact is probably negligible.
         candidates = AncillaryFeature.get_instances(feat)
-        idlist.append((feat, [c.hash(mm) for c in candidates]))
+        hashes = [c.hash(mm) for c in candidates]
+        if feat in mm._usertemp:
+            # Temporary features may be replaced by the user at any time.
+            hashes.append(hashobj(mm._usertemp[feat]))
+        idlist.append((feat, hashes))
     return idlist
 
 
